@@ -421,11 +421,12 @@ class EventDispatcher(object):
             Exception, log error then acknowledge the "poison" message to
             prevent it from being endlessly redelivered.
             """
-            self.logger.exception(
-                "Message {} caused the exception: {}:{} - dropping the message!".format(
-                    message.body, type(e).__name__, str(e)
-                )
+            description = "Message {} caused the exception: {}:{} - dropping the message!".format(
+                message.body, type(e).__name__, str(e)
             )
+            self.logger.exception(description)
+            # Fail the execution (if one is running) before dropping its event.
+            self.state_engine.abort_execution(item, description)
             message.acknowledge(multiple=False)
 
     def acknowledge(self, id):
